@@ -52,7 +52,10 @@ Proof.
     destruct (topic_exists e (snd it)) eqn:Ex; [discriminate|]. cbn [negb] in Hreq. inversion Hreq; subst.
     apply in_map_iff in Hin as [x [Hx _]]. inversion Hx; subst. rewrite Hp, Ex. eauto using authz_29.
   - inversion Hreq; subst. exists TOPIC_AUTHZ. split; [eapply per_item_denied; eauto|reflexivity].
-  - inversion Hreq; subst. exists TOPIC_AUTHZ. split; [eapply per_item_denied; eauto|reflexivity].
+  - (* Fetch: the decision is taken on the resolved name *)
+    apply in_map_iff in Hin as [a0 [Hx _]]. destruct (fetch_name a0) as [nm|]; inversion Hx; subst; cbn [fst snd] in Hreq.
+    + inversion Hreq; subst. rewrite Hp. eauto using authz_29.
+    + discriminate Hreq.
   - inversion Hreq; subst. exists GROUP_AUTHZ. split; [eapply per_item_denied; eauto|reflexivity].
   - inversion Hreq; subst. exists GROUP_AUTHZ. split; [eapply per_item_denied; eauto|reflexivity].
   - inversion Hreq; subst. exists GROUP_AUTHZ. split; [eapply per_item_denied; eauto|reflexivity].
